@@ -493,6 +493,13 @@ struct Judge {
       }
     for (auto& p : expected)
       if (!got.count(p)) {
+        // "a directory together with everything beneath it": a path that lies, by whole components and in the same
+        // absolute/relative class, strictly beneath a path remove() WAS called for is removed with it (an
+        // implementation may skip the separate call); counted, not a violation.
+        bool withAncestor = false;
+        for (auto& q : got)
+          if (q != p && isAbs(q) == isAbs(p) && !comps(q).empty() && comps(q).size() < comps(p).size() && refBeneath(p, q)) withAncestor = true;
+        if (withAncestor) { res.count("expected_paths_removed_with_an_ancestor"); continue; }
         std::string why = whyNotRemoved(p, toolRoots);
         std::string cls = why == "root-trailing-separator" ? "C14.tool-root-trailing-separator-differs" : "C14.tool-stale-not-removed-" + why;
         res.violate(cls, ctx + ": '" + p + "' was listed by the previous run, is not listed now and is allowed by the roots, but remove() was never called for it (" + why + ")", spec);
